@@ -293,3 +293,110 @@ func (p *Prog) chanUseIn(f *ssa.Function, is func(ssa.Value) bool, send bool, de
 	}
 	return k
 }
+
+// checkForwarderFiltersEveryBatch: the per-watch forwarder is started with the revision the live stream resumes at;
+// batches that were already in flight when the watcher registered can carry older events, and not only the first
+// batch. Every batch the forwarder receives is filtered with that parameter: (a) wherever the forwarder uses the
+// revision it was started with, it uses the parameter itself - never a variable that some path has overwritten;
+// (b) no path from a receive on the input channel to a send on the output channel avoids such a use.
+func checkForwarderFiltersEveryBatch(p *Prog, w *watchRoles, res *Result, rule string) {
+	f := w.forwarder
+	var revPrm *ssa.Parameter
+	for _, prm := range f.Params {
+		if isUint64(prm.Type()) {
+			revPrm = prm
+		}
+	}
+	construct := funcName(f) + ": every received batch is filtered with the start revision"
+	if revPrm == nil {
+		res.und(rule, construct, p.pos(f.Pos()), "the forwarder has no revision parameter")
+		return
+	}
+	usesPrm := func(ins ssa.Instruction) (uses bool, pure bool) {
+		var ops []ssa.Value
+		switch x := ins.(type) {
+		case ssa.CallInstruction:
+			ops = x.Common().Args
+		case *ssa.BinOp:
+			ops = []ssa.Value{x.X, x.Y}
+		default:
+			return false, false
+		}
+		pure = true
+		for _, o := range ops {
+			if !isUint64(o.Type()) {
+				continue
+			}
+			alts := resolveAll(o)
+			has := false
+			for _, a := range alts {
+				if a == ssa.Value(revPrm) {
+					has = true
+				}
+			}
+			if has {
+				uses = true
+				if len(alts) != 1 {
+					pure = false
+				}
+			}
+		}
+		return uses, pure
+	}
+	var impure ssa.Instruction
+	nUses := 0
+	for _, b := range f.Blocks {
+		for _, ins := range b.Instrs {
+			if u, pure := usesPrm(ins); u {
+				if _, isCall := ins.(ssa.CallInstruction); isCall {
+					if c := ins.(ssa.CallInstruction); c.Common().StaticCallee() != nil && c.Common().StaticCallee().Pkg != f.Pkg {
+						continue // logging
+					}
+				}
+				nUses++
+				if !pure {
+					impure = ins
+				}
+			}
+		}
+	}
+	if impure != nil {
+		res.bad(rule, construct, p.pos(impure.Pos()), "the revision the forwarder filters with is not the parameter it was started with on every path (the variable is overwritten, e.g. cleared after the first batch): a later batch that was in flight when the watcher registered is forwarded unfiltered - events below the start revision, or events the replay has already delivered")
+		return
+	}
+	if nUses == 0 {
+		res.bad(rule, construct, p.pos(f.Pos()), "the forwarder never uses the revision it was started with")
+		return
+	}
+	// (b)
+	var unfiltered ssa.Instruction
+	for _, b := range f.Blocks {
+		for i, ins := range b.Instrs {
+			u, ok := ins.(*ssa.UnOp)
+			if !ok || u.Op != token.ARROW || !isEventSliceChan(u.X.Type()) {
+				continue
+			}
+			hit, _ := searchFrom(b, i+1, searchOpts{
+				stop: func(x ssa.Instruction) bool {
+					if c, ok := x.(ssa.CallInstruction); ok && c.Common().StaticCallee() != nil && c.Common().StaticCallee().Pkg != f.Pkg {
+						return false
+					}
+					uu, _ := usesPrm(x)
+					return uu
+				},
+				bad: func(x ssa.Instruction) bool {
+					s, ok := x.(*ssa.Send)
+					return ok && isEventSliceChan(s.Chan.Type())
+				},
+			})
+			if hit != nil {
+				unfiltered = hit
+			}
+		}
+	}
+	if unfiltered != nil {
+		res.bad(rule, construct, p.pos(unfiltered.Pos()), "a path from receiving a batch to forwarding it does not pass the filter on the start revision")
+	} else {
+		res.ok(rule, construct, p.pos(f.Pos()), fmt.Sprintf("%d use(s) of the start-revision parameter, always the parameter itself; every receive-to-send path passes one", nUses))
+	}
+}
